@@ -45,6 +45,8 @@ def gen_pattern(rng, cat, small=True):
         return a
     svc, name = a.split(":", 1)
     r = rng.random()
+    if rng.random() < 0.015:
+        return "*"             # the bare wildcard (whole catalogue / nothing), rare because it is expensive
     if r < 0.22:
         return a
     if r < 0.47:
